@@ -94,6 +94,24 @@ def folded (arith : Arith → Bits → Bits → Bits) (op : Arith) (a b : Bits) 
 def computed (arith : Arith → Bits → Bits → Bits) (op : Arith) (a b : Bits) : Res :=
   if op = .div then divide (arith .div) a b else .val (arith op a b)
 
+/-! ### chains `v op₁ a₁ op₂ a₂ …` with literal operands: one instruction per operator, left to right
+
+A literal right operand becomes the immediate of an `*FloatImm` instruction; consecutive
+immediate-operand instructions are NOT merged (IEEE operations do not reassociate), so the value is
+the left fold of the single operations, each rounded on its own, and the first zero divisor stops. -/
+
+def evalChain (arith : Arith → Bits → Bits → Bits) : Res → List (Arith × Bits) → Res
+  | r, [] => r
+  | .divZero, _ => .divZero
+  | .val x, (op, a) :: rest => evalChain arith (computed arith op x a) rest
+
+/-- `v op₁ (a op₂ b)` with literal `a`, `b` — also `x op₁= a op₂ b`, which is `x = x op₁ (a op₂ b)`:
+    the parenthesised literal expression is folded (or run by the VM, same bits), then one instruction -/
+def evalRight (arith : Arith → Bits → Bits → Bits) (v : Bits) (op1 : Arith) (a : Bits) (op2 : Arith) (b : Bits) : Res :=
+  match folded arith op2 a b with
+  | .val t => computed arith op1 v t
+  | .divZero => .divZero
+
 /-! ### `f as i64` -/
 
 def i64Min : Int := -(2 ^ 63)
